@@ -445,7 +445,20 @@ def F22():
     comp.run(start_time=S, end_time=S + timedelta(days=24))
 
 
-ALL = ["F1", "F2", "F3", "F3b", "F4", "F5", "F6", "F7", "F8", "F9", "F10", "F11", "F13", "F14", "F15", "F16", "F17", "F18", "F20", "F21", "F22"]
+def F23():
+    """TimeTrigger with a step finer than its source's republishes the same array: run aborts with FinamDataError (C03)"""
+    from datetime import timedelta
+
+    gen = fm.components.CallbackGenerator({"Out": (lambda t: float((t - S).total_seconds()), fm.Info(time=None, grid=fm.NoGrid(), units="m"))}, S, timedelta(hours=3))
+    trig = fm.components.TimeTrigger(start=S, step=timedelta(hours=1), in_info=fm.Info(time=None, grid=fm.NoGrid(), units=None))
+    sink = fm.components.DebugPushConsumer({"In": fm.Info(time=None, grid=fm.NoGrid(), units=None)})
+    comp = fm.Composition([gen, trig, sink], print_log=False, log_level=logging.CRITICAL)
+    gen.outputs["Out"] >> trig.inputs["In"]
+    trig.outputs["Out"] >> sink.inputs["In"]
+    comp.run(start_time=S, end_time=S + timedelta(hours=12))
+
+
+ALL = ["F1", "F2", "F3", "F3b", "F4", "F5", "F6", "F7", "F8", "F9", "F10", "F11", "F13", "F14", "F15", "F16", "F17", "F18", "F20", "F21", "F22", "F23"]
 
 if __name__ == "__main__":
     names = sys.argv[1:] or ALL
